@@ -225,6 +225,7 @@ def replay(vectors, plans, start_id=0):
             nid += len(ch)
     if not jobs:
         return []
+    common.settle_memory()
     with mp.get_context("fork").Pool(common.NCPU) as pool:
         res = pool.map(_replay_chunk, jobs)
     return [e for ch in res for e in ch]
